@@ -251,6 +251,88 @@ func (g *gen) aliasPrelude() {
 	}
 }
 
+// siblings: a parent group whose middleware slice has grown by Use (so it may have spare capacity),
+// then several child groups with middleware of their own, then routes on every child — the shape
+// on which a child that appends to the parent's slice instead of copying shows up.
+func (g *gen) siblings() {
+	r := g.r
+	kind := r.Intn(3) // 0 router group, 1 app group, 2 app version group
+	if kind > 0 {
+		g.app = true
+	}
+	var parent int
+	psg := g.seg()
+	switch kind {
+	case 0:
+		g.add(cx.Op{K: "G", A: 0, Seg: psg, Hs: g.hs(0, 2)})
+		g.groups = append(g.groups, struct {
+			router int
+			path   []int
+		}{0, []int{psg}})
+		parent = len(g.groups) - 1
+	case 1:
+		g.add(cx.Op{K: "AG", Seg: psg, Hs: g.hs(0, 2)})
+		g.agroups = append(g.agroups, struct{ path []int }{[]int{psg}})
+		parent = len(g.agroups) - 1
+	default:
+		g.add(cx.Op{K: "AV", Ver: 1})
+		g.vrouters = append(g.vrouters, struct{ router, ver int }{0, 1})
+		g.avgroups = append(g.avgroups, struct {
+			vr   int
+			path []int
+		}{0, nil})
+		parent = 0
+	}
+	useK := []string{"GU", "AGU", "AVU"}[kind]
+	subK := []string{"SG", "ASG", "AVSG"}[kind]
+	for i := r.Range(1, 3); i > 0; i-- {
+		g.add(cx.Op{K: useK, A: parent, Hs: g.hs(1, 2)})
+	}
+	var kids []int
+	for i := r.Range(2, 3); i > 0; i-- {
+		sg := g.seg()
+		g.add(cx.Op{K: subK, A: parent, Seg: sg, Hs: g.hs(1, 2)})
+		switch kind {
+		case 0:
+			g.groups = append(g.groups, struct {
+				router int
+				path   []int
+			}{0, cat(g.groups[parent].path, sg)})
+			kids = append(kids, len(g.groups)-1)
+		case 1:
+			g.agroups = append(g.agroups, struct{ path []int }{cat(g.agroups[parent].path, sg)})
+			kids = append(kids, len(g.agroups)-1)
+		default:
+			g.avgroups = append(g.avgroups, struct {
+				vr   int
+				path []int
+			}{0, cat(g.avgroups[parent].path, sg)})
+			kids = append(kids, len(g.avgroups)-1)
+		}
+	}
+	for _, k := range kids {
+		if r.Chance(1, 2) {
+			g.add(cx.Op{K: useK, A: k, Hs: g.hs(1, 1)})
+		}
+	}
+	for _, k := range kids {
+		sg := g.seg()
+		switch kind {
+		case 0:
+			i := g.add(cx.Op{K: "R", OK: "g", A: k, Seg: sg, Hs: g.hs(1, 2)})
+			g.addEntry(0, entry{nil, i, cat(g.groups[k].path, sg), -1})
+		case 1:
+			g.nextH++
+			i := g.add(cx.Op{K: "AR", OK: "ag", A: k, Seg: sg, H: g.nextH})
+			g.addEntry(0, entry{nil, i, cat(g.agroups[k].path, sg), -1})
+		default:
+			g.nextH++
+			i := g.add(cx.Op{K: "AR", OK: "avg", A: k, Seg: sg, H: g.nextH})
+			g.addEntry(0, entry{nil, i, cat(g.avgroups[k].path, sg), 1})
+		}
+	}
+}
+
 // aliasCoda: every sibling gets middleware of its own and then a route
 func (g *gen) aliasCoda() {
 	n := len(g.agroups)
@@ -401,8 +483,14 @@ func genScript(r *hx.Rand, st *hx.Stats) (caseT, []cx.Target) {
 	case k < 6:
 		g.theme, g.app = "alias", true
 		g.aliasPrelude()
+	case k < 8:
+		g.theme = "siblings"
+		g.siblings()
 	}
 	n := r.Range(4, 16)
+	if g.theme == "siblings" {
+		n = r.Range(0, 6)
+	}
 	for i := 0; i < n; i++ {
 		g.step()
 	}
